@@ -267,6 +267,7 @@ def run(rep):
     rep.guard(c06.s1, rep, w)     # an open upvalue left pointing into a discarded stack region is a dangling pointer: the closure reads freed memory
     rep.guard(c06.s6, rep, w)
     rep.guard(c06.s8, rep, w, 'C01')   # ... for every fiber of the abandoned run, not only the active one
+    rep.guard(c06.s9, rep, w, 'C01')   # ... and the block they point into is never reallocated
     import c14, c15
     rep.guard(c14.m5, rep, w)     # ObjClosure.module is an untraced edge, justified by "modules stay in the registry until reset()": that premise is checked here
     rep.guard(c15.n5, rep, w)     # the compiler creates nothing but chunks / functions (rooted) and interned strings (immortal): any other object built while compiling has no root yet
